@@ -209,6 +209,12 @@ def _lis_call(C, rc, impl, fn, args, w, want, bad, shown=None):
         return 'raise:' + type(err).__name__
     if want is None:
         return 'unspecified'
+    if isinstance(want, tuple):
+        if not _isnum(got) or not (want[1] <= got <= want[2]):
+            bad.append((_lis_value_sig(C, rc, impl, w, got, want[1]),
+                        'LIS code %d word %s via %s%s = %r, the standard defines a value between %r and %r'
+                        % (rc, _hx(w, size), impl, shown, got, want[1], want[2])))
+        return got
     if not _isnum(got) or got != want:
         bad.append((_lis_value_sig(C, rc, impl, w, got, want),
                     'LIS code %d word %s via %s%s = %r, the standard defines %r' % (rc, _hx(w, size), impl, shown, got, want)))
@@ -222,8 +228,18 @@ def _file_for(C, payload):
 
 
 def _lis_want(C, rc, w):
+    """The double the standard's value is exactly; None when it has none; for code 50 words whose value lies below the
+    double range (exponent field near -32768) the pair ('between', lo, hi) of the two doubles that bracket it - any
+    rounding of the standard's value is accepted, nothing else is."""
     if rc == 50:
-        return C.nr.lis50_double(w)
+        d = C.nr.lis50_double(w)
+        if d is None:
+            m, e = C.nr.lis50_fields(w)
+            e -= 15
+            if m != 0 and e < -1074:
+                lo = m >> min(-1074 - e, 64)        # floor(m * 2**(e + 1074))
+                return ('between', math.ldexp(lo, -1074), math.ldexp(lo + 1, -1074))
+        return d
     exact = C.nr.LIS_DECODE[rc](w)
     return exact if isinstance(exact, int) else C.nr.as_double(exact)
 
@@ -965,9 +981,25 @@ def sweep5070_block(C, np, w0, n, res):
             raise AssertionError('lis50_array disagrees with lis50 at %s' % _hx(w0 + k))
     arr, errs = _decode_block(np, C.c.from50, srng, n)
     _report_raises(res, errs, 'LIS50', 'c', w0, 'signed')
+    wi = words.astype(np.int64)
+    e50 = (wi >> 16) & 0xFFFF
+    e50 = np.where(e50 >= 0x8000, e50 - 0x10000, e50) - 15
+    m50 = wi & 0xFFFF
+    m50 = np.where(m50 >= 0x8000, m50 - 0x10000, m50)
+    under = ~valid & (m50 != 0) & (e50 < -1074)
+    if under.any():
+        # values below the double range: the result must be one of the two doubles that bracket the standard's value
+        lo = m50 >> np.minimum(-1074 - e50, 63)
+        tiny = 2.0 ** -1074
+        out = under & ~np.isnan(arr) & ~((arr >= lo * tiny) & (arr <= (lo + 1) * tiny))
+        idx = np.flatnonzero(out)
+        if idx.size:
+            k = int(idx[0])
+            _report_class(res, {'kind': 'decode_value', 'code': 'LIS50', 'impl': 'c'}, {'leg': 'w32', 'word': w0 + k},
+                          'LIS code 50 word %s via c(%d) = %r, the standard defines a value between %r and %r; %d words of block %s in this class'
+                          % (_hx(w0 + k), srng[k], float(arr[k]), float(lo[k] * tiny), float((lo[k] + 1) * tiny), idx.size, _hx(w0)), int(idx.size))
     mism = valid & (arr != ref) & ~np.isnan(arr)
     if mism.any():
-        wi = words.astype(np.int64)
         e = (wi >> 16) & 0xFFFF
         e = np.where(e >= 0x8000, e - 0x10000, e)
         m = wi & 0xFFFF
